@@ -95,7 +95,7 @@ func StartServer(dir string) (srv *Server, err error) {
 	}
 	h, t, u := g.Ports()
 	tr := &http.Transport{MaxIdleConns: 8, IdleConnTimeout: 30 * time.Second}
-	srv = &Server{S: g, Dir: dir, HTTP: h, TCP: t, UDP: u, tr: tr, client: &http.Client{Transport: tr, Timeout: 15 * time.Second}}
+	srv = &Server{S: g, Dir: dir, HTTP: h, TCP: t, UDP: u, tr: tr, client: &http.Client{Transport: tr, Timeout: 180 * time.Second}}
 	return srv, nil
 }
 
@@ -116,18 +116,17 @@ func (s *Server) Close() (err error) {
 		}()
 		done <- s.S.Close()
 	}()
-	select {
-	case err = <-done:
-		if err != nil && len(err.Error()) >= 6 && err.Error()[:6] == "panic:" {
-			s.S.VerifStop()
-		} else {
-			s.S.VerifForget()
-		}
-		return err
-	case <-time.After(30 * time.Second):
+	if !WaitActive(30*time.Second, 5*time.Millisecond, func() bool { return len(done) > 0 }) {
 		s.S.VerifStop()
-		return fmt.Errorf("timeout: Close did not return within 30s")
+		return fmt.Errorf("timeout: Close did not return within 30 s of active time")
 	}
+	err = <-done
+	if err != nil && len(err.Error()) >= 6 && err.Error()[:6] == "panic:" {
+		s.S.VerifStop()
+	} else {
+		s.S.VerifForget()
+	}
+	return err
 }
 
 // Abandon stops a (possibly wedged) server without waiting.
@@ -165,10 +164,10 @@ func (s *Server) SendUDP(b []byte) error {
 	if _, err := s.udp.Write(b); err != nil {
 		return err
 	}
-	deadline := time.Now().Add(5 * time.Second)
+	start := ActiveNow()
 	for i := 0; s.S.VerifUDPHandled() == before; i++ {
-		if time.Now().After(deadline) {
-			return fmt.Errorf("timeout: datagram of %d bytes not handled within 5s", len(b))
+		if i > 1000 && ActiveNow()-start > 8*time.Second {
+			return fmt.Errorf("timeout: datagram of %d bytes not handled within 8 s of active time", len(b))
 		}
 		if i < 200 {
 			runtime.Gosched()
@@ -192,13 +191,23 @@ func (s *Server) Do(method, path string, body []byte) (int, []byte, error) {
 	if body != nil {
 		req.Header.Set("Content-Type", "application/json")
 	}
-	resp, err := s.client.Do(req)
-	if err != nil {
-		return 0, nil, err
+	var st int
+	var b []byte
+	var rerr error
+	ok := DoActive(20*time.Second, func() {
+		resp, err := s.client.Do(req)
+		if err != nil {
+			rerr = err
+			return
+		}
+		defer resp.Body.Close()
+		b, rerr = io.ReadAll(resp.Body)
+		st = resp.StatusCode
+	})
+	if !ok {
+		return 0, nil, fmt.Errorf("timeout: no response to %s %s within 20 s of active time", method, path)
 	}
-	defer resp.Body.Close()
-	b, err := io.ReadAll(resp.Body)
-	return resp.StatusCode, b, err
+	return st, b, rerr
 }
 
 func (s *Server) Get(path string) (int, []byte, error) { return s.Do("GET", path, nil) }
@@ -214,12 +223,12 @@ func (s *Server) PostJSON(path string, v interface{}) (int, []byte, error) {
 // SyncRaw speaks the TCP sync protocol: sends req and returns everything the
 // server writes before closing (bounded by a deadline).
 func (s *Server) SyncRaw(req []byte) ([]byte, error) {
-	conn, err := net.DialTimeout("tcp", fmt.Sprintf("127.0.0.1:%d", s.TCP), 5*time.Second)
+	conn, err := net.DialTimeout("tcp", fmt.Sprintf("127.0.0.1:%d", s.TCP), 60*time.Second)
 	if err != nil {
 		return nil, err
 	}
 	defer conn.Close()
-	conn.SetDeadline(time.Now().Add(10 * time.Second))
+	conn.SetDeadline(time.Now().Add(120 * time.Second))
 	if len(req) > 0 {
 		if _, err := conn.Write(req); err != nil {
 			return nil, err
